@@ -122,6 +122,24 @@ class NKw(Node):     # printer takes the trailing comment through **options
     pass
 
 
+class NDict(dict):   # registered printer, but the *builtin* repr (insertion-ordered, unsorted keys)
+    @property
+    def kids(self):
+        return [self[k] for k in self if k not in ('zeta', 'alpha')]
+
+    @property
+    def name(self):
+        return 'd%d' % len(self)
+
+
+class NList(list):   # same for a list subclass
+    @property
+    def kids(self):
+        return list(self)
+
+    name = 'l'
+
+
 NESTED = [0]
 
 
@@ -234,6 +252,14 @@ def setup():
     def prn_kwargs(v, ctx, **options):
         return _body(v, ctx, prn_kwargs)
 
+    @register_pretty(NDict)
+    def prn_dictsub(v, ctx):
+        return _body(v, ctx, prn_dictsub)
+
+    @register_pretty(NList)
+    def prn_listsub(v, ctx):
+        return _body(v, ctx, prn_listsub)
+
     @register_pretty(NRepr)
     def prn_reprclass(v, ctx):
         return _body(v, ctx, prn_reprclass)
@@ -273,7 +299,7 @@ def gen_tree(r, budget, depth=0, pool=None):
         pool[0] += 1
     else:
         # other bundled container printers; 'objkeys' is a dict whose KEYS are harness objects
-        kind = r.choice(['deque', 'odict', 'ns', 'ntuple', 'objkeys', 'ddict', 'chainmap'])
+        kind = r.choice(['deque', 'odict', 'ns', 'ntuple', 'objkeys', 'ddict', 'chainmap', 'ndict', 'ndict', 'nlist'])
         node = [kind, [gen_tree(r, budget, depth + 1, pool) for _ in range(r.randrange(1, 3))]]
         pool[0] += 1
     x = r.random()
@@ -303,6 +329,12 @@ def build(node, env):
         v = tuple(build(k, env) for k in node[1])
     elif t == 'dict':
         v = {k: build(x, env) for k, x in node[1]}
+    elif t == 'ndict':
+        v = NDict(zeta=1, alpha=2)
+        for i, k in enumerate(node[1]):
+            v['c%d' % i] = build(k, env)
+    elif t == 'nlist':
+        v = NList(build(k, env) for k in node[1])
     elif t == 'deque':
         v = collections.deque(build(k, env) for k in node[1])
     elif t == 'odict':
@@ -383,6 +415,11 @@ def _check_fault(v, width, faults, base, other, other_base):
         raise core.HarnessError('reference run raised: %r' % (ref,))
     if again != base[0]:
         return viol('later_call_affected', 'same_value', again=again, base=base[0]), info
+    if aw != base[1]:
+        return viol('later_call_affected', 'warnings_of_same_value', warnings=[m[2][:200] for m in aw],
+                    baseline=[m[2][:200] for m in base[1]]), info
+    if ow:
+        return viol('later_call_affected', 'warnings_of_other_value', warnings=[m[2][:200] for m in ow]), info
     if oth != other_base:
         return viol('later_call_affected', 'other_value', again=oth, base=other_base), info
     if not gfired:
@@ -505,6 +542,13 @@ def execute(spec):
                    [j, r.choice((0, 1)), 'raise', r.choice(names), None]]):
             return res
         counters['pair_cases'] = counters.get('pair_cases', 0) + 1
+        a, b = sorted(r.sample(range(n), 2))
+        mixed = [[a, r.choice((0, 1)), 'nondoc', r.choice(sorted(NONDOCS))], [b, 0, 'raise', r.choice(names), None]]
+        if r.random() < 0.5:
+            mixed = [[a, 1, 'nondoc', r.choice(sorted(NONDOCS))], [b, r.choice((0, 1)), 'raise', r.choice(names), None]]
+        if handle(mixed):
+            return res
+        counters['mixed_pair_cases'] = counters.get('mixed_pair_cases', 0) + 1
     res['steps'] = counters.get('fault_cases', 0)
     res['sample'] = dict(invocations=n, width=width, fault_cases=counters.get('fault_cases', 0),
                          text=base[0][1][:300])
@@ -546,7 +590,7 @@ def _subtrees(node, path=()):
             yield path, ['obj', node[1], node[2], node[3][:i] + node[3][i + 1:]]
         for i, k in enumerate(node[3]):
             yield from _subtrees(k, path + (3, i))
-    elif t in ('list', 'tuple', 'deque', 'odict', 'ns', 'ntuple', 'objkeys', 'ddict', 'chainmap'):
+    elif t in ('list', 'tuple', 'deque', 'odict', 'ns', 'ntuple', 'objkeys', 'ddict', 'chainmap', 'ndict', 'nlist'):
         for i in range(len(node[1])):
             if t == 'ntuple' and len(node[1]) <= 1:
                 break
@@ -580,7 +624,7 @@ def shrinkers(spec):
             elif t == 'obj':
                 for k in node[3]:
                     yield from walk(k)
-            elif t in ('list', 'tuple', 'deque', 'odict', 'ns', 'ntuple', 'objkeys', 'ddict', 'chainmap'):
+            elif t in ('list', 'tuple', 'deque', 'odict', 'ns', 'ntuple', 'objkeys', 'ddict', 'chainmap', 'ndict', 'nlist'):
                 for k in node[1]:
                     yield from walk(k)
             elif t == 'dict':
